@@ -40,6 +40,9 @@ fn child(args: &[String]) -> ! {
     let all = backends::all_bvs();
     // the front end runs once per process, like in the CLI
     let loaded = vcommon::catch(|| backends::load(&wit));
+    if let Ok(Ok((resolve, world))) = &loaded {
+        println!("WORLD {}", resolve.worlds[*world].name);
+    }
     for label in labels {
         let bv = all
             .iter()
@@ -118,6 +121,8 @@ fn per_label(s: &str) -> BTreeMap<String, String> {
         if let Some(b) = l.strip_prefix("BV ") {
             cur = Some(b.to_string());
             m.insert(b.to_string(), String::new());
+        } else if let Some(w) = l.strip_prefix("WORLD ") {
+            m.insert("__world".to_string(), w.to_string());
         } else if l.starts_with("PROBE ") || l.is_empty() {
         } else if let Some(c) = &cur {
             let e: &mut String = m.get_mut(c).unwrap();
@@ -174,10 +179,19 @@ fn construct_kind(line: &str) -> String {
     }
 }
 
-/// world-independent file name: directories dropped, the world/package-specific stem replaced.
-fn generic_name(name: &str) -> String {
+/// World-independent file name: the directory is dropped; a base name that is derived from the
+/// world / package / interface names (contains the world name, or is a dotted C# path) becomes
+/// `*.<ext>`, fixed names (`ffi.mbt`, `wit_bindings.go`, ..) are kept.
+fn generic_name(name: &str, world: &str) -> String {
     let base = name.rsplit('/').next().unwrap_or(name);
-    base.to_string()
+    let norm = |s: &str| s.chars().filter(|c| c.is_ascii_alphanumeric()).collect::<String>().to_lowercase();
+    let (stem, ext) = base.rsplit_once('.').unwrap_or((base, ""));
+    let w = norm(world);
+    if (!w.is_empty() && norm(stem).contains(&w)) || stem.contains('.') {
+        format!("*.{ext}")
+    } else {
+        base.to_string()
+    }
 }
 
 /// Run one seed with `--dump`: every backend's files land in `<dir>/<label>/`.
@@ -254,7 +268,7 @@ fn describe_diff(
                 .copied()
                 .unwrap_or(line0);
             result = (
-                format!("{}:{how}:{}", generic_name(name), construct_kind(item_line)),
+                format!("{}:{how}:{}", generic_name(name, run0.1.get("__world").map(|s| s.as_str()).unwrap_or("")), construct_kind(item_line)),
                 json!({"file": name, "first_differing_line": i + 1, "seed0_line": line0, "other_seed_line": line1,
                        "same_lines_different_order": s0 == s1}),
             );
@@ -375,7 +389,7 @@ fn main() {
             for b in &bvs {
                 let l = b.label();
                 let missing = m.get(&l).map(|t| t.is_empty() || t.contains("STATUS died")).unwrap_or(true);
-                if missing && m.len() < bvs.len() {
+                if missing {
                     let mut a = worlds[wi].1.clone();
                     a.push(l.clone());
                     procs += 1;
